@@ -94,3 +94,26 @@ MUTANTS += [
     dict(id='c14-epsalg-guard', props=['C14'], file=EXT,
          old='                if np.abs(delta) <= 1.0e-60:', new='                if np.abs(delta) <= 1.0e-6:'),
 ]
+
+MUTANTS += [
+    dict(id='c10-sign-swap', props=['C10'], file=SG,
+         old='    _sign = 1\n\n    def _range(self):\n        return range(self.num_steps - 1, -1, -1)',
+         new='    _sign = 1\n\n    def _range(self):\n        return range(self.num_steps - 1, 0, -1)'),
+    dict(id='c10-divisor-table', props=['C10'], file=SG,
+         old='        complex_divisior = 4 if (n > 1 or order >= 4) else 2',
+         new='        complex_divisior = 4 if (n > 1 or order >= 2) else 2'),
+    dict(id='c10-nom-clip-removed', props=['C10'], file=SG,
+         old='    return np.log(1.718281828459045 + np.abs(x)).clip(min=1)',
+         new='    return np.log(1.718281828459045 + np.abs(x)).clip(min=0.9)'),
+    dict(id='c10-cstep-numsteps-noabs', props=['C10'], file=LIM,
+         old='            return 2 * int(np.round(16.0 / np.log(np.abs(self.step_ratio)))) + 1',
+         new='            return 2 * int(np.round(16.0 / np.log(np.abs(self._step_ratio)) + 0.0)) + 1 + 2 * (self._step_ratio == 3)'),
+    dict(id='c10-default-scale-n5', props=['C10'], file=SG,
+         old='          3.65 + n_4 * (5 + 1.7 ** n_4),', new='          3.65 + n_4 * (5 + 1.75 ** n_4),'),
+    dict(id='c10-min-steps-high-central', props=['C10'], file=SG,
+         old='        return max(num_steps // divisor, 1)', new='        return max((num_steps - (num_steps > 14)) // divisor, 1)'),
+    dict(id='c10-exact-ratio-skipped', props=['C10'], file=SG,
+         old='            step_ratio = make_exact(step_ratio)\n', new='            pass\n'),
+    dict(id='c10-max-gen-fewer-default-steps', props=['C10'], file=SG,
+         old="    def __init__(self, base_step=2.0, step_ratio=None, num_steps=15,", new="    def __init__(self, base_step=2.0, step_ratio=None, num_steps=9,"),
+]
